@@ -14,6 +14,7 @@ type Clause struct {
 	Labels []string
 	Text   string
 	E      Expr
+	Trusted bool  // assumed at call sites, not checked against the body (reported as trusted)
 	Loop   int    // for invariant
 	Callee string // for assertcall: suffix of callee key
 	File   string
@@ -110,7 +111,7 @@ func NewSpec() *Spec {
 var labelRe = regexp.MustCompile(`^\[([^\]]*)\]\s*`)
 var clauseKeywords = map[string]bool{"func": true, "spec": true, "ghost": true, "axiom": true, "import": true, "requires": true,
 	"ensures": true, "loop": true, "assert@call": true, "prologue": true, "epilogue": true, "modifies": true, "pure": true,
-	"assumed": true, "maypanic": true, "lemma": true, "nosafety": true, "params": true, "safety": true}
+	"assumed": true, "trusted": true, "maypanic": true, "lemma": true, "nosafety": true, "params": true, "safety": true}
 
 func splitLabels(rest string) ([]string, string) {
 	if m := labelRe.FindStringSubmatch(rest); m != nil {
@@ -327,10 +328,14 @@ func (s *Spec) ParseSpecFile(path, pkgPath string) error {
 				return fail("clause %q outside a func block", kw)
 			}
 			switch kw {
-			case "requires", "ensures":
+			case "requires", "ensures", "trusted":
 				c, err := mkClause(kw, rest)
 				if err != nil {
 					return err
+				}
+				if kw == "trusted" {
+					c.Kind = "ensures"
+					c.Trusted = true
 				}
 				if kw == "requires" {
 					cur.Requires = append(cur.Requires, c)
